@@ -233,6 +233,10 @@ func handleUIDStore(deps ServerDeps, conn net.Conn, tag string, parts []string, 
 				// Send EXPUNGE notification to tell client the message is gone from this mailbox
 				if !silent {
 					deps.SendResponse(conn, fmt.Sprintf("* %d EXPUNGE", seqNum))
+					// The client has been told: NOOP must not announce this removal again
+					if state.LastMessageCount > 0 {
+						state.LastMessageCount--
+					}
 				}
 				// Message was moved - don't send FETCH response since it's no longer in this mailbox
 				continue
@@ -251,6 +255,10 @@ func handleUIDStore(deps ServerDeps, conn net.Conn, tag string, parts []string, 
 				// Send EXPUNGE notification to tell client the message is gone from this mailbox
 				if !silent {
 					deps.SendResponse(conn, fmt.Sprintf("* %d EXPUNGE", seqNum))
+					// The client has been told: NOOP must not announce this removal again
+					if state.LastMessageCount > 0 {
+						state.LastMessageCount--
+					}
 				}
 				// Message was moved - don't send FETCH response since it's no longer in this mailbox
 				continue
